@@ -870,6 +870,26 @@ impl Client {
     }
 }
 
+/// Verification hook (only with `--cfg rdp_rs_verif`): read-only view
+/// of the private automata state, used as canonical state by the explorer
+#[cfg(rdp_rs_verif)]
+impl Client {
+    pub fn verif_state_id(&self) -> u8 {
+        match self.state {
+            ClientState::DemandActivePDU => 0,
+            ClientState::SynchronizePDU => 1,
+            ClientState::ControlCooperate => 2,
+            ClientState::ControlGranted => 3,
+            ClientState::FontMap => 4,
+            ClientState::Data => 5
+        }
+    }
+
+    pub fn verif_share_id(&self) -> Option<u32> {
+        self.share_id
+    }
+}
+
 #[cfg(test)]
 mod test {
     use super::*;
